@@ -429,7 +429,7 @@ func (c *Client) ReadDirContext(ctx context.Context, p string) ([]os.FileInfo, e
 			}
 		case sshFxpStatus:
 			// TODO(dfc) scope warning!
-			err = normaliseError(unmarshalStatus(id, data))
+			err = statusOnlyError(id, data)
 			done = true
 		default:
 			return nil, unimplementedPacketErr(typ)
@@ -1176,7 +1176,7 @@ func (f *File) readChunkAt(ch chan result, b []byte, off int64) (n int, err erro
 
 		switch typ {
 		case sshFxpStatus:
-			return n, normaliseError(unmarshalStatus(id, data))
+			return n, statusOnlyError(id, data)
 
 		case sshFxpData:
 			sid, data := unmarshalUint32(data)
@@ -1328,7 +1328,7 @@ func (f *File) readAt(b []byte, off int64) (int, error) {
 				if err == nil {
 					switch s.typ {
 					case sshFxpStatus:
-						err = normaliseError(unmarshalStatus(packet.id, s.data))
+						err = statusOnlyError(packet.id, s.data)
 
 					case sshFxpData:
 						sid, data := unmarshalUint32(s.data)
@@ -1562,7 +1562,7 @@ func (f *File) WriteTo(w io.Writer) (written int64, err error) {
 				if err == nil {
 					switch s.typ {
 					case sshFxpStatus:
-						err = normaliseError(unmarshalStatus(readWork.id, s.data))
+						err = statusOnlyError(readWork.id, s.data)
 
 					case sshFxpData:
 						sid, data := unmarshalUint32(s.data)
@@ -2292,7 +2292,7 @@ func (f *File) Sync() error {
 // normaliseError normalises an error into a more standard form that can be
 // checked against stdlib errors like io.EOF or os.ErrNotExist.
 // statusOnlyError decodes a STATUS reply to a request whose success reply carries data
-// (HANDLE, ATTRS, NAME, EXTENDED_REPLY). Such a request can only be refused with a STATUS,
+// (HANDLE, DATA, ATTRS, NAME, EXTENDED_REPLY). Such a request can only be refused with a STATUS,
 // so SSH_FX_OK must not come out as a nil error next to a nil result.
 func statusOnlyError(id uint32, data []byte) error {
 	err := normaliseError(unmarshalStatus(id, data))
